@@ -1,6 +1,7 @@
 CONSTANTS
   Ext <- NoExtensions
   Conv = "bundled"
+  Variants = FALSE
   Syntax <- OnlyModes
   Defects = FALSE
   Mode = "sim"
